@@ -320,6 +320,17 @@ class Check(CheckBase):
         for vols in itertools.product(ad, repeat=2):
             cases.append({"fmt": "akai", "vols": list(vols), "files": ["SMP", "SMP.L"]})
         cases.append({"fmt": "akai", "vols": ["A", "A", "A."], "files": ["A L", "A", "A R", "A"]})
+        # directories with exactly ONE entry, named by every hostile name
+        for h in [x for x in HOSTILE if x not in ("/abs", "\xe9", "")]:
+            cases.append({"fmt": "cdda", "titles": [h]})
+            if len(h) <= 16:
+                cases.append({"fmt": "roland", "vols": [h], "perfs": [h], "smps": [h]})
+        for f in AKAI_FILE:
+            if f.strip():
+                cases.append({"fmt": "akai", "vols": ["A B"], "files": [f]})
+        for dname in AKAI_DIR:
+            if dname.strip():
+                cases.append({"fmt": "akai", "vols": [dname], "files": ["SMP"]})
         # names that differ only in the number of inner blanks (both tiers)
         cases.append({"fmt": "akai", "vols": ["A B", "A  B", "A   B"], "files": ["X Y", "X  Y"]})
         cases.append({"fmt": "roland", "vols": ["V W", "V  W"], "perfs": ["P Q", "P  Q"], "smps": ["s t", "s  t"]})
